@@ -102,25 +102,131 @@ def showOpt (r : Option String) : String := r.getD "fault"
 
 def dprModel (fn : String) (v : BitVec 64) : Option (List Byte) :=
   match fn with
-  | "dec_u8" | "dec_uc" => printdecU64 ((v.truncate 8).zeroExtend 64)
-  | "dec_u16" | "dec_us" => printdecU64 ((v.truncate 16).zeroExtend 64)
-  | "dec_u32" | "dec_ui" => printdecU64 ((v.truncate 32).zeroExtend 64)
-  | "dec_u64" | "dec_ul" | "dec_ull" => printdecU64 v
-  | "dec_sc" => printdecSLL ((v.truncate 8).signExtend 64)
-  | "dec_ss" => printdecSLL ((v.truncate 16).signExtend 64)
-  | "dec_si" => printdecSLL ((v.truncate 32).signExtend 64)
-  | "dec_sl" | "dec_sll" => printdecSLL v
+  | "dec_u8" => printdecU8 (v.truncate 8)
+  | "dec_u16" => printdecU16 (v.truncate 16)
+  | "dec_u32" => printdecU32 (v.truncate 32)
+  | "dec_u64" => printdecU64 v
+  | "dec_uc" => printdecUChar (v.truncate 8)
+  | "dec_us" => printdecUShort (v.truncate 16)
+  | "dec_ui" => printdecUInt (v.truncate 32)
+  | "dec_ul" => printdecULong v
+  | "dec_ull" => printdecULL v
+  | "dec_sc" => printdecSChar (v.truncate 8)
+  | "dec_ss" => printdecSShort (v.truncate 16)
+  | "dec_si" => printdecSInt (v.truncate 32)
+  | "dec_sl" => printdecSLong v
+  | "dec_sll" => printdecSLL v
   | "hex_u4" => some (printhexU4 (v.truncate 8 &&& 0x0F#8))
-  | "hex_u8" | "hex_c" | "hex_uc" | "hex_sc" => some (printhexU8 (v.truncate 8))
-  | "hex_u16" | "hex_us" | "hex_ss" => some (printhexU16 (v.truncate 16))
-  | "hex_u32" | "hex_ui" | "hex_si" => some (printhexU32 (v.truncate 32))
-  | "hex_u64" | "hex_ul" | "hex_ull" | "hex_sl" | "hex_sll" => some (printhexU64 v)
+  | "hex_u8" => some (printhexU8 (v.truncate 8))
+  | "hex_c" | "hex_uc" | "hex_sc" => printhexChar (v.truncate 8)
+  | "hex_u16" => some (printhexU16 (v.truncate 16))
+  | "hex_us" | "hex_ss" => printhexShort (v.truncate 16)
+  | "hex_u32" => some (printhexU32 (v.truncate 32))
+  | "hex_ui" | "hex_si" => printhexInt (v.truncate 32)
+  | "hex_u64" => some (printhexU64 v)
+  | "hex_ul" | "hex_ull" | "hex_sl" | "hex_sll" => printhexLong v
+  | "hex_ptr" => printhexPtr v
   | "bin_u4" => some (printbinU4 (v.truncate 8 &&& 0x0F#8))
   | "bin_u8" => some (printbinU8 (v.truncate 8))
   | "bin_u16" => some (printbinU16 (v.truncate 16))
   | "bin_u32" => some (printbinU32 (v.truncate 32))
   | "bin_u64" => some (printbinU64 v)
   | _ => none
+
+/-- `<length> <FNV-1a of the bytes> <the first 48 bytes>` -/
+def showStream (s : List Byte) : String :=
+  toString s.length ++ " " ++ hexOfNat 16 (fnvBytes 14695981039346656037 s).toNat ++ " " ++ bytesHex (s.take 48)
+
+def repeatBytes (bs : List Byte) (rep : Nat) : List Byte := (List.replicate rep bs).flatten
+
+/-- `len` bytes of the pattern repeated -/
+def patternBytes (pat : List Byte) (len : Nat) : List Byte :=
+  if pat.isEmpty then [] else (repeatBytes pat (len / pat.length + 1)).take len
+
+def whModel (fn : String) (mem : List Byte) (p size : Nat) : Option (List Byte) :=
+  match fn with
+  | "hex" => writehex mem p (BitVec.ofNat 16 size)
+  | "hexr" => writehexReversed mem p (BitVec.ofNat 16 size)
+  | "bin" => writebin mem p (BitVec.ofNat 16 size)
+  | "binr" => writebinReversed mem p (BitVec.ofNat 16 size)
+  | "hexn" => printhexN mem p size
+  | _ => none
+
+def hxaModel (w : Nat) (v : Nat) : Option String := do
+  let txt ← match w with
+    | 8 => some (uint8ToHex (BitVec.ofNat 8 v))
+    | 16 => some (uintToHex (BitVec.ofNat 16 v) 2)
+    | 32 => some (uintToHex (BitVec.ofNat 32 v) 4)
+    | 64 => some (uintToHex (BitVec.ofNat 64 v) 8)
+    | _ => none
+  let back (t : List Byte) : Option Nat :=
+    match w with
+    | 8 => (hexToUint 8 1 t).map (·.toNat)
+    | 16 => (hexToUint 16 2 t).map (·.toNat)
+    | 32 => (hexToUint 32 4 t).map (·.toNat)
+    | _ => (hexToUint 64 8 t).map (·.toNat)
+  let b1 ← back txt
+  let b2 ← back (txt.map flipCase)
+  pure (bytesHex txt ++ " " ++ hexOfNat (w / 4) b1 ++ " " ++ hexOfNat (w / 4) b2)
+
+def b2n (b : Bool) : Nat := if b then 1 else 0
+
+def ctyEntry (c : Int) : String :=
+  let mask := b2n (isdigitI c) + 2 * b2n (isxdigitI c) + 4 * b2n (isblankI c) + 8 * b2n (isspaceI c)
+    + 16 * b2n (isupperI c) + 32 * b2n (islowerI c) + 64 * b2n (isalphaI c) + 128 * b2n (isalnumI c)
+    + 256 * b2n (isprintI c)
+  hexOfNat 4 mask ++ hexOfNat 2 ((toupperI c - c + 128).toNat % 256) ++ hexOfNat 2 ((tolowerI c - c + 128).toNat % 256)
+
+/-- the text (up to the NUL) a rendering routine leaves in a fresh buffer -/
+def textOf (r : Option (List Byte × Nat)) : List Byte :=
+  match r with
+  | some (m, _) => m.takeWhile (· ≠ 0#8)
+  | none => [0x21#8]
+
+def alphaModel : List Byte :=
+  let ds := List.range 36
+  let f (g : Nat → Option (List Byte × Nat)) : List Byte := ds.flatMap fun d => textOf (g d)
+  f (fun d => i64toa (BitVec.ofNat 64 d) (fill 8) 36#8)
+  ++ f (fun d => u64toa (BitVec.ofNat 64 d) (fill 8) 36#8)
+  ++ f (fun d => itoa (BitVec.ofNat 32 d) (fill 8) 36#16)
+  ++ f (fun d => utoa (BitVec.ofNat 32 d) (fill 8) 36#16)
+  ++ f (fun d => ltoa (BitVec.ofNat 64 d) (fill 8) 36#16)
+  ++ f (fun d => ultoa (BitVec.ofNat 64 d) (fill 8) 36#16)
+  ++ (List.range 16).flatMap (fun d => printhexU4 (BitVec.ofNat 8 d))
+  ++ (List.range 16).map (fun d => half2hex (BitVec.ofNat 8 d))
+
+/-- widths and signedness of the parameter / return types the model assumes
+    (`<bytes><s|u>`; value / base for the renderers, return / base for the parsers) -/
+def constsModel : String :=
+  "int=4 long=8 short=2 ptr=8 char=s le "
+  ++ "toa:1s/1u,2s/1u,4s/1u,8s/1u,1u/1u,2u/1u,4u/1u,8u/1u "
+  ++ "ato:1s/1u,2s/1u,4s/1u,8s/1u,1u/1u,2u/1u,4u/1u,8u/1u "
+  ++ "lc:4s/2u,4u/2u,8s/2u,8u/2u atol:8s atoi:4s "
+  ++ "dpr:1u,2u,4u,8u,1u,2u,4u,8u,8u,1s,2s,4s,8s,8s,1u,1u,2u,4u,8u,1s,1u,2u,4u,8u,8u,1s,2s,4s,8s,8s,1u,1u,2u,4u,8u "
+  ++ "wh:2u,2u,2u,2u,4s dump:2u vt:4s"
+
+def maxOf (k : String) : Nat := 2 ^ (if k.startsWith "i" then kbits k - 1 else kbits k) - 1
+
+def lenOfToa (k : String) (v : BitVec 64) (base : Nat) : Option Nat := do
+  let (m, _) ← toaK k v (fill (kbits k + 8)) (BitVec.ofNat 8 base)
+  let n := touched m
+  let (_, ret) ← toaK k v (fill n) (BitVec.ofNat 8 base)
+  pure ret
+
+def seqLoop (k : String) (v : BitVec 64) : List Nat → List Byte → Option (List Byte)
+  | [], m => some m
+  | b :: bs, m => (toaK k v m (BitVec.ofNat 8 b)).bind fun (m, _) => seqLoop k v bs m
+
+def preModel : String :=
+  let a := textOf (i32toa (BitVec.ofInt 32 (-2147483648)) (fill 16) 10#8)
+  let b := textOf (u64toa (BitVec.ofNat 64 (2 ^ 64 - 1)) (fill 72) 2#8)
+  let c := match atou32 [0x34#8, 0x32#8, 0x39#8, 0x34#8, 0x39#8, 0x36#8, 0x37#8, 0x32#8, 0x39#8, 0x35#8, 0#8] 0 10#8 with
+    | some (v, e) => hexOfNat 8 v.toNat ++ "/" ++ toString e
+    | none => "fault"
+  let d := (printdecSLL (BitVec.ofInt 64 (-9223372036854775808))).getD [0x21#8]
+  let e := printhexU32 0xDEADBEEF#32
+  let f := textOf (itoa (BitVec.ofInt 32 (-255)) (fill 16) 16#16)
+  bytesHex a ++ " " ++ bytesHex b ++ " " ++ c ++ " " ++ bytesHex d ++ " " ++ bytesHex e ++ " " ++ bytesHex f
 
 def lcModel (fn : String) (v : BitVec 64) (m : List Byte) (base : BitVec 16) : Option (List Byte × Nat) :=
   match fn with
@@ -132,7 +238,7 @@ def lcModel (fn : String) (v : BitVec 64) (m : List Byte) (base : BitVec 16) : O
 
 def stepLine (_ : Unit) (line : String) : Unit × String :=
   let r : Option String :=
-    match words line with
+    match (match words line with | "twin" :: rest => rest | ws => ws) with
     | ["reset"] => some "ok"
     | ["toa", k, b, v] => do
         if !isKind k then none
@@ -193,6 +299,78 @@ def stepLine (_ : Unit) (line : String) : Unit × String :=
           let (m, _) ← vt100Left (fill 40) arg
           let (m, ret) ← vt100Left (fill (touched m)) arg
           pure (bytesHex m ++ " " ++ toString ret)
+    | ["wh", fn, p, size, rep, hx] => do
+        let p ← p.toNat?
+        let size ← size.toNat?
+        let rep ← rep.toNat?
+        let bs ← parseBytes? hx
+        pure <| showOpt do
+          let s ← whModel fn (repeatBytes bs rep) p size
+          pure (showStream s)
+    | ["dump", len, rep, hx] => do
+        let len ← len.toNat?
+        let rep ← rep.toNat?
+        let bs ← parseBytes? hx
+        pure <| showOpt do
+          let s ← printDump 0#64 (repeatBytes bs rep) (BitVec.ofNat 16 len)
+          pure (showStream s)
+    | ["hxa", w, v] => do
+        let w ← w.toNat?
+        let v ← parseHexNat? v
+        pure <| showOpt (hxaModel w v)
+    | ["tbl", "h2x"] => some (bytesHex ((List.range 256).map fun n => half2hex (BitVec.ofNat 8 n)))
+    | ["tbl", "dv"] => some <| showOpt do
+        let bs ← (List.range 256).mapM fun c => do
+          let (v, e) ← atou8 [BitVec.ofNat 8 c, 0#8] 0 255#8
+          pure (BitVec.ofNat 8 (v.toNat + 128 * e))
+        pure (bytesHex bs)
+    | ["tbl", "cty"] => some (String.join ((List.range 384).map fun (i : Nat) => ctyEntry (Int.ofNat i - 128)))
+    | ["tbl", "alpha"] => some (bytesHex alphaModel)
+    | ["consts"] => some constsModel
+    | ["pre"] => some preModel
+    | ["maxlen", k, b] => do
+        if !isKind k then none
+        let base ← b.toNat?
+        pure <| showOpt do
+          let lmax ← lenOfToa k (BitVec.ofNat 64 (maxOf k)) base
+          if k.startsWith "i" then
+            let lmin ← lenOfToa k (BitVec.ofInt 64 (-(maxOf k : Int) - 1)) base
+            pure (toString lmax ++ " " ++ toString lmin)
+          else pure (toString lmax ++ " -")
+    | ["atorep", k, b, len, pat, tail] => do
+        if !isKind k then none
+        let base ← b.toNat?
+        let len ← len.toNat?
+        let pat ← parseBytes? pat
+        let tail ← parseBytes? tail
+        if tail.getLast? != some 0#8 then none
+        pure <| showOpt do
+          let (x, e) ← atoK k (patternBytes pat len ++ tail) (BitVec.ofNat 8 base)
+          pure (hexOfNat (kbits k / 4) x ++ " " ++ toString e)
+    | ["seq", k, v, bases] => do
+        if !isKind k then none
+        let v ← parseHexNat? v
+        let bs ← (bases.splitOn ",").mapM (·.toNat?)
+        pure <| showOpt do
+          let m ← seqLoop k (BitVec.ofNat 64 v) bs (fill 72)
+          pure (bytesHex (m.take (touched m)))
+    | "asml" :: w :: vs => do
+        let w ← w.toNat?
+        let vs ← vs.mapM parseHexNat?
+        if vs.length == 0 || vs.length > 4 then none
+        match w with
+        | 8 => some (bytesHex (asmlinkArgs8 (vs.map (BitVec.ofNat 8))))
+        | 16 => some (bytesHex (asmlinkArgs16 (vs.map (BitVec.ofNat 16))))
+        | 32 => some (bytesHex (asmlinkArgs32 (vs.map (BitVec.ofNat 32))))
+        | _ => none
+    | ["asmr", v] => do
+        let v ← parseHexNat? v
+        pure <| showOpt do
+          let a ← dprptr (BitVec.ofNat 64 v)
+          let b ← dprptrln (BitVec.ofNat 64 v)
+          pure (hexOfNat 2 asmlinkRet8.toNat ++ " " ++ hexOfNat 4 asmlinkRet16.toNat ++ " " ++ hexOfNat 8 asmlinkRet32.toNat ++ " "
+            ++ hexOfNat 16 asmlinkRet64.toNat ++ " " ++ bytesHex asmlinkTest ++ " " ++ bytesHex a ++ " " ++ bytesHex b ++ " "
+            ++ bytesHex debugPrintNull)
     | ["h2h", c] => do
         let c ← parseHexNat? c
         pure (hexOfNat 2 (hex2half (BitVec.ofNat 8 c)).toNat)
